@@ -7,7 +7,8 @@
 EXTENDS Ingress, TLC
 
 CONSTANTS HeadSel,     \* header kinds explored ({} = all)
-          ProtoSel     \* listener kinds explored ({} = all)
+          ProtoSel,    \* listener kinds explored ({} = all)
+          Slim         \* TRUE: IPv4 declared sources and the plain payload only (smoke runs of the quick tier)
 
 MCTables == {"A", "B"}
 
@@ -20,12 +21,12 @@ MCCfgs ==
 
 MCHeadFam == {<<"none", 4>>, <<"v1", 4>>, <<"v1", 6>>, <<"unk", 4>>, <<"v2", 4>>, <<"v2", 6>>, <<"lf", 4>>,
               <<"range", 4>>, <<"xfam", 4>>, <<"xip", 4>>, <<"xport", 4>>, <<"xshort", 4>>, <<"xlong", 4>>}
-PaysFor(c) == IF c.proto \in {"http", "tcp"} THEN {"plain", "pro"} ELSE {"plain"}
+PaysFor(c) == IF c.proto \in {"http", "tcp"} /\ ~Slim THEN {"plain", "pro"} ELSE {"plain"}
 SnisFor(c) == CASE c.proto = "tcp+sni"       -> {"raw", "acl", "none"}
                 [] c.proto = "https+tcp+sni" -> {"tun", "sw", "h"}
                 [] OTHER                     -> {"-"}
 ScriptsFor(c) == {[head |-> hf[1], fam |-> hf[2], pay |-> p, sni |-> n] :
-                     hf \in {x \in MCHeadFam : HeadSel = {} \/ x[1] \in HeadSel}, p \in PaysFor(c), n \in SnisFor(c)}
+                     hf \in {x \in MCHeadFam : (HeadSel = {} \/ x[1] \in HeadSel) /\ (Slim => x[2] = 4)}, p \in PaysFor(c), n \in SnisFor(c)}
 MCUniverse == UNION {{[c |-> c, s |-> s] : s \in ScriptsFor(c)} : c \in {x \in MCCfgs : ProtoSel = {} \/ x.proto \in ProtoSel}}
 
 (* Internal steps first: a listener that has bytes to look at looks at them before the   *)
